@@ -159,12 +159,16 @@ def job_cells(args):
     singles = list(itertools.product(VALS, ERRS))
     dset = Dataset(np.array([c[0] for c in singles]), np.array([c[1] for c in singles]), name='L')
     for con in CONSTS:
-        for kind in ('number', 'array', 'scalar-dataset'):
+        for kind in ('number', 'array', 'array-int64', 'array-uint8', 'scalar-dataset'):
+            if kind == 'array-uint8' and (con < 0 or con != int(con)) or kind == 'array-int64' and con != int(con):
+                continue
             before = snap(dset)
             if kind == 'number':
                 out = apply_op(op, dset, con)
             elif kind == 'array':
                 out = apply_op(op, dset, np.full(len(singles), con, dtype=float))
+            elif kind in ('array-int64', 'array-uint8'):
+                out = apply_op(op, dset, np.full(len(singles), con, dtype=kind.split('-')[1]))
             else:
                 out = None
             if snap(dset) != before:
